@@ -837,6 +837,14 @@ fn for_each_case(class: Class, seed: &[u8], thorough: bool, text: Option<(&'stat
 
 // ---------------------------------------------------------------- worker
 
+/// CPU time of the calling thread (wall time is no measure on a loaded machine).
+fn thread_cpu() -> Duration {
+    let mut ts = libc::timespec { tv_sec: 0, tv_nsec: 0 };
+    // SAFETY: valid pointer to a timespec.
+    unsafe { libc::clock_gettime(libc::CLOCK_THREAD_CPUTIME_ID, &mut ts) };
+    Duration::new(ts.tv_sec as u64, ts.tv_nsec as u32)
+}
+
 /// `vcheck worker c02 <status>`
 pub fn worker_main(status_path: &str) -> i32 {
     crate::util::install_quiet_panic_hook();
@@ -865,7 +873,7 @@ pub fn worker_main(status_path: &str) -> i32 {
         for_each_case(class, seed, thorough, tg.text, lo, hi, |idx, bytes| {
             ctx.begin_case(idx);
             evaluated += 1;
-            let t0 = Instant::now();
+            let t0 = thread_cpu();
             crate::alloc::arm();
             let r = std::panic::catch_unwind(std::panic::AssertUnwindSafe(|| (tg.run)(bytes)));
             let max_req = crate::alloc::disarm();
@@ -873,7 +881,8 @@ pub fn worker_main(status_path: &str) -> i32 {
             let mut report = |kind: &str, sig: String, detail: String| {
                 if emitted.insert(sig.clone()) {
                     ctx.emit(&json!({"kind": kind, "sig": sig, "detail": detail, "target": tname, "seed": seed_name, "class": class.name(), "case": idx,
-                                      "input_len": bytes.len(), "input_hex": hex::encode(&bytes[..bytes.len().min(4096)])}));
+                                      "input_len": bytes.len(), "input_hex": if bytes.len() <= 8192 { json!(hex::encode(bytes)) } else { Value::Null },
+                                      "replay": {"target": tname, "seed": seed_idx, "class": class.name(), "case": idx, "thorough": thorough}}));
                 } else {
                     suppressed += 1;
                 }
@@ -892,8 +901,9 @@ pub fn worker_main(status_path: &str) -> i32 {
                     if !tg.decompresses && max_req > limit {
                         report("disproportionate-allocation", format!("{tname}|disproportionate-allocation"), format!("single allocation request of {max_req} bytes for an input of {} bytes", bytes.len()));
                     }
-                    if t0.elapsed() > Duration::from_secs(2) {
-                        report("slow", format!("{tname}|slow"), format!("case took {:?}", t0.elapsed()));
+                    let cpu = thread_cpu().saturating_sub(t0);
+                    if cpu > Duration::from_secs(2) {
+                        report("slow", format!("{tname}|slow"), format!("case took {cpu:?} of CPU time"));
                     }
                     if ok && mode_c08 {
                         if let Some(fix) = tg.fix {
@@ -979,7 +989,7 @@ fn run_mode(prop: &str, mode: &str, tier: Tier, seed: u64) -> i32 {
     let only_fix = mode == "c08";
     let (tasks, planned, seed_info) = plan(tier, mode, only_fix);
     rep.set_rule("per target × seed: every byte substitution (all 255 values for seeds ≤4 KiB, boundary set otherwise), every truncation length, extensions by 1/16/4096 bytes of 00/FF, every 2/3/4/5/8-byte window within 64 bytes of start/end set to {0,1,mid,mid+1,max-1,max} in both endiannesses, (thorough) every pair of 1/2/4-byte boundary windows within 32 bytes of start/end; text targets additionally every string of ≤L grammar tokens and every string of ≤2 arbitrary bytes; every generated case differs from its seed and from every other case of the same (seed, class), so distinct_nontrivial = cases evaluated");
-    rep.assume("isolation: each case runs in a worker process under catch_unwind with a counting allocator (single requests above 1 GiB + 64 MiB are refused; non-decompressing targets may not request more than max(16 MiB, 4096 × input length) at once); 5 s per case");
+    rep.assume("isolation: each case runs in a worker process under catch_unwind with a counting allocator (single requests above 1 GiB + 64 MiB are refused; non-decompressing targets may not request more than max(16 MiB, 4096 × input length) at once); 5 s of CPU time per case (or 100 s without progress)");
     rep.assume("inputs more than one (thorough: two header/footer) deviations away from every seed are not reached");
     let cfg = PoolConfig {
         mode: "c02".to_string(),
@@ -1016,7 +1026,7 @@ fn run_mode(prop: &str, mode: &str, tier: Tier, seed: u64) -> i32 {
         for d in &res.deaths {
             let t = d.task["target"].as_str().unwrap_or("?");
             let (kind, sig, detail) = if d.kind == "hang" {
-                ("hang".to_string(), format!("{t}|hang"), format!("case {} of {:?} did not return within 5 s", d.case_idx, d.task))
+                ("hang".to_string(), format!("{t}|hang"), format!("case {} of {:?} did not return within 5 s of CPU time", d.case_idx, d.task))
             } else if d.refused_alloc > 0 {
                 (
                     "abort-oversized-allocation".to_string(),
